@@ -6,6 +6,7 @@ import (
 	"encoding/json"
 	"fmt"
 	"math"
+	"math/big"
 	"strconv"
 	"strings"
 
@@ -26,6 +27,9 @@ type Case struct {
 	RB   string `json:"rb,omitempty"` // producer of y (eq)
 	Rel  string `json:"rel,omitempty"`
 	Str  []int  `json:"str,omitempty"`
+	X    string `json:"x,omitempty"`     // pow: base (decimal int64)
+	Y    int    `json:"y,omitempty"`     // pow: exponent
+	Rdx  *int64 `json:"radix,omitempty"` // pint: radix argument (absent = undefined)
 }
 
 func bitsOf(s string) uint64 { u, _ := strconv.ParseUint(s, 10, 64); return u }
@@ -154,9 +158,10 @@ func jsLiteral(f float64) string {
 	return strconv.FormatFloat(f, 'g', -1, 64)
 }
 
-var valRoutes = []string{"literal", "numstr", "json", "dataview", "goval_f", "goval_i", "mul1", "sub0", "div1", "negneg",
+var valRoutes = []string{"parseint_long", "parsefloat_long", "number_long", "pow1", "literal", "numstr", "json", "dataview", "goval_f", "goval_i", "mul1", "sub0", "div1", "negneg",
 	"parsefloat", "unaryplus", "f64arr", "goval_f32", "goval_i32", "export"}
-var eqRoutes = []string{"raw", "literal", "numstr", "json", "dataview", "goval_f", "mul1", "sub0", "negneg", "inc", "dec", "neg", "add1", "f64arr", "half2"}
+var eqRoutes = []string{"raw", "literal", "numstr", "json", "dataview", "goval_f", "mul1", "sub0", "negneg", "inc", "dec", "neg", "add1", "f64arr", "half2",
+	"parseint_long", "parsefloat_long", "number_long", "parseint_long", "parsefloat_long", "number_long", "pow1"}
 
 // produce builds a Number from the double f by the named route; nil if the route does not apply
 func produce(vm *goja.Runtime, route string, f float64) (res goja.Value) {
@@ -249,6 +254,58 @@ func produce(vm *goja.Runtime, route string, f float64) (res goja.Value) {
 		}
 		vm.Set("p", rawValue(f-1))
 		return run("p+1")
+	case "parseint_long", "parsefloat_long", "number_long":
+		// a LONG source text (zero padding, and for the parse* functions a non-numeric tail) with the value f
+		u := math.Float64bits(f)
+		mix := (u ^ (u >> 29) ^ (u >> 47)) * 0x9E3779B97F4A7C15
+		padTo := []int{16, 20, 62, 63, 64, 65, 66, 100, 130}[int(mix>>8)%9]
+		neg := f < 0
+		a := math.Abs(f)
+		if !finite || (f == 0 && math.Signbit(f)) {
+			return nil
+		}
+		var digits, src string
+		switch route {
+		case "parseint_long":
+			if a != math.Trunc(a) || a >= 9007199254740992 {
+				return nil
+			}
+			radix := 2 + int(mix>>20)%35
+			digits = strconv.FormatInt(int64(a), radix)
+			if (mix>>40)&1 == 1 {
+				digits = strings.ToUpper(digits)
+			}
+			for len(digits) < padTo {
+				digits = "0" + digits
+			}
+			tail := []string{"", "", " px", "~", ".5", " is the answer to life, the universe and everything, said the computer"}[int(mix>>44)%6]
+			if neg {
+				digits = "-" + digits
+			}
+			src = fmt.Sprintf("parseInt(\"%s%s\", %d)", digits, tail, radix)
+		default:
+			lit := strconv.FormatFloat(a, 'f', -1, 64)
+			if len(lit) > 40 {
+				return nil
+			}
+			digits = lit
+			for len(digits) < padTo {
+				digits = "0" + digits
+			}
+			if neg {
+				digits = "-" + digits
+			}
+			if route == "parsefloat_long" {
+				tail := []string{"", "abc", " 12", "e", "..", "px and a long tail that is not part of the number at all"}[int(mix>>44)%6]
+				src = "parseFloat(\"  " + digits + tail + "\")"
+			} else {
+				src = "Number(\"" + digits + "  \")"
+			}
+		}
+		return run(src)
+	case "pow1":
+		vm.Set("p", rawValue(f))
+		return run("p**1")
 	case "half2":
 		if f/2*2 != f && !math.IsNaN(f) {
 			return nil
@@ -422,8 +479,267 @@ func runCase(c Case) vh.Record {
 			return vh.Record{Case: raw, Coq: failTerm, Obs: obsJSON(map[string]interface{}{"r": rep}), Tags: append(tags, "notnumber")}
 		}
 		return vh.Record{Case: raw, Coq: fmt.Sprintf("CStr %s %s", vh.CoqList(zs), rt), Obs: obsJSON(map[string]interface{}{"src": src, "r": rep}), Tags: tags, Nontrivial: true}
+	case "pow":
+		x, _ := strconv.ParseInt(c.X, 10, 64)
+		vm.Set("a", rawValue(float64(x)))
+		vm.Set("b", rawValue(float64(c.Y)))
+		src := []string{"a**b", "Math.pow(a,b)", "(function(){var x=a; x**=b; return x})()"}[c.Var%3]
+		tags = append(tags, fmt.Sprintf("exp:%d", c.Y))
+		v, err := vm.RunString(src)
+		if err != nil {
+			return vh.Record{Case: raw, Coq: failTerm, Obs: obsJSON(map[string]interface{}{"src": src, "error": errClass(err)}), Tags: append(tags, "error")}
+		}
+		rt, rep, ok := coqNum(v)
+		if !ok {
+			return vh.Record{Case: raw, Coq: failTerm, Obs: obsJSON(map[string]interface{}{"src": src, "r": rep}), Tags: append(tags, "notnumber")}
+		}
+		tags = append(tags, "res:"+rep[:strings.IndexByte(rep, ':')])
+		return vh.Record{Case: raw, Coq: fmt.Sprintf("CPow %s %s %s", vh.CoqZ(x), vh.CoqZ(int64(c.Y)), rt),
+			Obs: obsJSON(map[string]interface{}{"src": src, "r": rep}), Tags: tags, Nontrivial: true}
+	case "pint", "pfloat":
+		units := make([]string, len(c.Str))
+		zs := make([]string, len(c.Str))
+		for i, u := range c.Str {
+			units[i] = strconv.Itoa(u)
+			zs[i] = strconv.Itoa(u) + "%Z"
+		}
+		pre := "var s=String.fromCharCode(" + strings.Join(units, ",") + "); "
+		if len(c.Str) == 0 {
+			pre = "var s=\"\"; "
+		}
+		var src, term string
+		tags = append(tags, fmt.Sprintf("len:%d", lenClass(len(c.Str))))
+		if c.Kind == "pint" {
+			src = "parseInt(s)"
+			rdx := int64(0)
+			if c.Rdx != nil {
+				rdx = *c.Rdx
+				src = fmt.Sprintf("parseInt(s, %d)", rdx)
+			}
+			tags = append(tags, fmt.Sprintf("radix:%d", rdx))
+			term = fmt.Sprintf("CPInt %s %s ", vh.CoqList(zs), vh.CoqZ(rdx))
+		} else {
+			src = "parseFloat(s)"
+			term = fmt.Sprintf("CPFloat %s ", vh.CoqList(zs))
+		}
+		v, err := vm.RunString(pre + src)
+		if err != nil {
+			return vh.Record{Case: raw, Coq: failTerm, Obs: obsJSON(map[string]interface{}{"error": errClass(err)}), Tags: append(tags, "error")}
+		}
+		rt, rep, ok := coqNum(v)
+		if !ok {
+			return vh.Record{Case: raw, Coq: failTerm, Obs: obsJSON(map[string]interface{}{"r": rep}), Tags: append(tags, "notnumber")}
+		}
+		tags = append(tags, "res:"+rep[:strings.IndexByte(rep, ':')])
+		return vh.Record{Case: raw, Coq: term + rt, Obs: obsJSON(map[string]interface{}{"src": src, "r": rep}), Tags: tags, Nontrivial: true}
 	}
 	return vh.Record{Case: raw, Coq: failTerm, Obs: "unknown kind", Tags: tags}
+}
+
+func lenClass(n int) int {
+	for _, b := range []int{15, 19, 62, 63, 64, 65, 99, 1000} {
+		if n <= b {
+			return b
+		}
+	}
+	return 1000
+}
+
+// iroot returns the largest b >= 0 with b^e <= n
+func iroot(n *big.Int, e int) int64 {
+	lo, hi := int64(0), int64(1)<<32
+	if e == 1 {
+		return n.Int64()
+	}
+	for lo < hi {
+		mid := lo + (hi-lo+1)/2
+		p := new(big.Int).Exp(big.NewInt(mid), big.NewInt(int64(e)), nil)
+		if p.Cmp(n) <= 0 {
+			lo = mid
+		} else {
+			hi = mid - 1
+		}
+	}
+	return lo
+}
+
+var (
+	bigMaxInt64 = new(big.Int).SetUint64(1<<63 - 1)
+	bigTwo53    = new(big.Int).SetUint64(1 << 53)
+)
+
+// genPow: bases at the int64 overflow boundary and at the 2^53 representation boundary of every exponent
+func genPow(r *vh.Rng) Case {
+	e := 2 + r.Intn(20)
+	switch r.Pick(70, 8, 12, 10) {
+	case 1:
+		e = r.Intn(3) // 0, 1, 2
+	case 2:
+		e = 22 + r.Intn(49) // 22..70
+	case 3:
+		e = []int{2, 3, 4, 5, 6, 8, 10, 16, 32, 62, 63, 64, 65}[r.Intn(13)]
+	}
+	var x int64
+	switch r.Pick(40, 25, 20, 10, 5) {
+	case 0:
+		ee := e
+		if ee < 1 {
+			ee = 1
+		}
+		x = iroot(bigMaxInt64, ee) + int64(r.Intn(5)-2)
+	case 1:
+		ee := e
+		if ee < 1 {
+			ee = 1
+		}
+		x = iroot(bigTwo53, ee) + int64(r.Intn(3)-1)
+	case 2:
+		x = int64(r.Intn(41) - 20)
+	case 3:
+		x = int64(r.Intn(2001) - 1000)
+	default:
+		x = int64(int32(r.U64()))
+	}
+	if x > 9007199254740992 {
+		x = 9007199254740992 - int64(r.Intn(3))
+	}
+	if r.Bool() {
+		x = -x
+	}
+	return Case{Kind: "pow", Var: r.Intn(3), X: strconv.FormatInt(x, 10), Y: e}
+}
+
+const radixDigits = "0123456789abcdefghijklmnopqrstuvwxyz"
+
+func padLen(r *vh.Rng) int {
+	return []int{1, 5, 15, 16, 17, 19, 20, 21, 62, 63, 64, 65, 66, 99, 100, 101, 200}[r.Intn(17)]
+}
+
+var garbageTails = []string{"", "", "", "px", " is the answer to life, the universe and everything (a long tail, well over sixty-four characters)",
+	"~", ".5", "_1", " 7", "e5", "n", "\u00e9", "G", "-3"}
+
+func genPInt(r *vh.Rng) Case {
+	var radix int64
+	var rp *int64
+	switch r.Pick(20, 60, 10, 10) {
+	case 0: // undefined
+	case 1:
+		radix = int64(2 + r.Intn(35))
+		rp = &radix
+	case 2:
+		radix = []int64{0, 10, 16, 16, 2, 8, 36}[r.Intn(7)]
+		rp = &radix
+	default:
+		radix = []int64{1, 37, -1, 4294967298, -4294967280, 100}[r.Intn(6)]
+		rp = &radix
+	}
+	base := int(radix)
+	if base < 2 || base > 36 {
+		base = 10
+	}
+	hexPrefix := false
+	if (rp == nil || radix == 0 || radix == 16) && r.Chance(35) {
+		hexPrefix = true
+		base = 16
+	}
+	// the value
+	var v uint64
+	switch r.Pick(35, 20, 15, 15, 15) {
+	case 0:
+		v = uint64(r.Intn(1000))
+	case 1:
+		v = r.U64() >> uint(12+r.Intn(50))
+	case 2:
+		v = 0
+	case 3:
+		v = (uint64(1) << 53) - 2 + uint64(r.Intn(5))
+	default:
+		v = (uint64(1) << 63) - 3 + uint64(r.Intn(6))
+	}
+	digits := strconv.FormatUint(v, base)
+	if r.Chance(30) {
+		digits = strings.ToUpper(digits)
+	}
+	target := padLen(r)
+	if r.Chance(15) { // long significant digit strings (value >= 2^63: approximate path)
+		for len(digits) < target {
+			digits += string(radixDigits[r.Intn(base)])
+		}
+	} else {
+		for len(digits) < target {
+			digits = "0" + digits
+		}
+	}
+	sb := ""
+	for i := r.Pick(60, 25, 15); i > 0; i-- {
+		sb += string(rune(wsUnits[r.Intn(len(wsUnits))]))
+	}
+	sb += []string{"", "", "", "-", "+"}[r.Intn(5)]
+	if hexPrefix {
+		sb += []string{"0x", "0X"}[r.Intn(2)]
+	}
+	if r.Chance(4) {
+		digits = "" // nothing to parse
+	}
+	sb += digits
+	tail := garbageTails[r.Intn(len(garbageTails))]
+	if tail != "" && strings.IndexByte(radixDigits[:base], tail[0]|0x20) >= 0 && tail[0] < 0x80 {
+		tail = "~" + tail // the tail must not start with a digit of this radix
+	}
+	sb += tail
+	return Case{Kind: "pint", Str: unitsOf(sb), Rdx: rp}
+}
+
+func genPFloat(r *vh.Rng) Case {
+	core := ""
+	switch r.Pick(50, 15, 15, 20) {
+	case 0: // zero-padded short decimal
+		ip := strconv.Itoa(r.Intn(100000))
+		if r.Chance(25) {
+			ip = "0"
+		}
+		for n := padLen(r); len(ip) < n; {
+			ip = "0" + ip
+		}
+		core = ip
+		if r.Chance(50) {
+			core += "." + strconv.Itoa(r.Intn(1000))
+			if r.Chance(40) { // trailing zeros
+				for n := r.Intn(80); n > 0; n-- {
+					core += "0"
+				}
+			}
+		}
+		if r.Chance(25) {
+			core += []string{"e", "E"}[r.Intn(2)] + []string{"", "+", "-"}[r.Intn(3)] + strconv.Itoa(r.Intn(12))
+		}
+	case 1:
+		core = []string{"Infinity", "Infinityx", "Infinit", "-Infinity and beyond", "+Infinity", "inf", "NaN", ".", "-.", "e5", ".e5", "", "-", "+"}[r.Intn(14)]
+	case 2:
+		core = []string{".5", "5.", "-.5e1", "1e", "1e+", "1e-", "1.5.5", "1..5", "0x10", "1_000", "-0", "-0.000", "+0", "00.5", "1e3e3", "12e-1"}[r.Intn(16)]
+	default: // long integers (exact when they fit 2^53 after stripping)
+		n := 1 + r.Intn(22)
+		for i := 0; i < n; i++ {
+			core += string(rune('0' + r.Intn(10)))
+		}
+		for k := r.Intn(60); k > 0 && r.Chance(50); k-- {
+			core = "0" + core
+		}
+	}
+	sb := ""
+	for i := r.Pick(60, 25, 15); i > 0; i-- {
+		sb += string(rune(wsUnits[r.Intn(len(wsUnits))]))
+	}
+	if r.Chance(25) && core != "" && core[0] != '-' && core[0] != '+' {
+		sb += []string{"-", "+"}[r.Intn(2)]
+	}
+	sb += core
+	tail := garbageTails[r.Intn(len(garbageTails))]
+	if tail != "" && (tail[0] >= '0' && tail[0] <= '9' || tail[0] == 'e' || tail[0] == '.') {
+		tail = "~" + tail
+	}
+	sb += tail
+	return Case{Kind: "pfloat", Str: unitsOf(sb)}
 }
 
 func errClass(err error) string {
@@ -534,7 +850,40 @@ func unitsOf(s string) []int {
 
 func genStr(r *vh.Rng) Case {
 	var core string
-	switch r.Pick(22, 10, 10, 10, 12, 16, 10, 10) {
+	switch r.Pick(22, 10, 10, 10, 12, 16, 10, 10, 18) {
+	case 8: // LONG texts with a small value: zero padding after the prefix / before the digits
+		n := padLen(r)
+		switch r.Intn(4) {
+		case 0:
+			core = strconv.Itoa(r.Intn(100000))
+			for len(core) < n {
+				core = "0" + core
+			}
+			if r.Chance(30) {
+				core += "." + strconv.Itoa(r.Intn(100))
+			}
+		case 1:
+			core = strconv.FormatInt(int64(r.Intn(100000)), 2)
+			for len(core) < n {
+				core = "0" + core
+			}
+			core = "0b" + core
+		case 2:
+			core = strconv.FormatInt(int64(r.Intn(1<<30)), 16)
+			for len(core) < n {
+				core = "0" + core
+			}
+			core = "0x" + core
+		default:
+			core = strconv.FormatInt(int64(r.Intn(1<<30)), 8)
+			for len(core) < n {
+				core = "0" + core
+			}
+			core = "0o" + core
+		}
+		if r.Chance(20) {
+			core = "-" + core
+		}
 	case 0: // radix literal of 1..80 digits
 		pf := []string{"0x", "0X", "0b", "0B", "0o", "0O"}[r.Intn(6)]
 		base := map[byte]int{'x': 16, 'X': 16, 'b': 2, 'B': 2, 'o': 8, 'O': 8}[pf[1]]
@@ -618,7 +967,13 @@ func genStr(r *vh.Rng) Case {
 }
 
 func genCase(r *vh.Rng) Case {
-	switch r.Pick(30, 34, 10, 14, 12) {
+	switch r.Pick(26, 28, 9, 13, 10, 6, 5, 3) {
+	case 5:
+		return genPow(r)
+	case 6:
+		return genPInt(r)
+	case 7:
+		return genPFloat(r)
 	case 0:
 		op := unOps[r.Intn(len(unOps))]
 		a := genFloat(r)
@@ -677,12 +1032,7 @@ func main() {
 	defer w.Close()
 	switch m.Cmd {
 	case "gen":
-		// vh.NewRng(seed) starts at seed*gamma, and the driver hands consecutive seeds to its parallel
-		// generator processes: their streams would be one stream shifted by one draw.  Scramble first.
-		z := m.Seed + 0x9E3779B97F4A7C15
-		z = (z ^ (z >> 30)) * 0xBF58476D1CE4E5B9
-		z = (z ^ (z >> 27)) * 0x94D049BB133111EB
-		r := vh.NewRng(z ^ (z >> 31))
+		r := vh.NewRng(m.Seed)
 		for i := 0; i < m.N; i++ {
 			c := genCase(r)
 			vh.Guard(w, vh.MustJSON(c), failTerm, 20, func() vh.Record { return runCase(c) })
